@@ -39,6 +39,13 @@ RACE_LVSS = [H("races", "race_lvss", 2, 3, args=[4, 0, 0], **{"max-failures": 60
 
 CHECKS = {
     "C19": {"harnesses": C19_HARNESSES},
+    "C17": {
+        "harnesses": [
+            H("bulk", "bulk_findif", args=[0], **{"hang-timeout": 30}),
+            H("bulk", "bulk_findif", args=[1], **{"hang-timeout": 30}),
+            H("bulk", "bulk_sched"),
+        ],
+    },
     "C01": {"harnesses": EXPR_SEQ_NR + [H("expr", "expr_d2", args=[r, 0, 1], weight=6, thorough_only=True) for r in EXPR_D2_ROOTS if r >= 18] + RACES + [
         H("cancel", "canc_generic", 2, 3), H("cancel", "canc_evt2", 2, 3), H("scopes", "scope_close_race", 2, 3, args=[0]),
         H("sched", "sch_loop", 2, 3), H("futures", "fut_v2", 2, 3, args=[0, 0])],
